@@ -778,6 +778,33 @@ def defining_class(obj, label):
     return type(obj).__name__
 
 
+# which theorem of C15.v speaks about an exercised reader (by defining class and name); everything else is testing only.
+# The tie between these Python entry points and the Gallina reads is made by the correspondences of the owning properties
+# (C02/C08: table reads through the caches, C16: searches and count-only replace, C03: get_part, C13: get_style) and, for the
+# paragraph reads and the table exporters, by the Para / Tab cases of this check.
+T_TABLE = "C15_table_reads_pure / C15_table_reads_in_any_order (TableB.b_read)"
+T_EXPORT = "C15_table_export_pure"
+T_TREE = "C15_tree_reads_pure (Tree.v)"
+T_PKG = "C15_package_reads_pure (Package.d_tree)"
+THEOREM_OF = {
+    ("Table", n): T_TABLE for n in ("size", "width", "height", "get_value", "get_values", "get_row_values", "get_column_values", "get_cell",
+                                    "get_row", "traverse", "rows", "get_rows", "get_column", "columns", "get_columns", "traverse_columns",
+                                    "iter_values", "get_cells", "get_column_cells")}
+THEOREM_OF.update({("Row", n): T_TABLE for n in ("width", "get_value", "get_values", "get_cell", "get_cells", "traverse", "cells")})
+THEOREM_OF.update({("Table", "to_csv"): T_EXPORT, ("Table", "__str__"): T_EXPORT, ("Table", "str"): T_EXPORT,
+                   ("Table", "get_formatted_text"): "C15_table_export_pure / C15_rst_pure", ("MDTable", "_md_format"): "C15_md_fixed_pure (C15_md_refuted on the pinned code)"})
+THEOREM_OF.update({("Element", n): T_TREE for n in ("search", "search_first", "search_all", "match", "replace", "inner_text", "text_recursive")})
+THEOREM_OF.update({("Document", n): T_PKG for n in ("get_part", "content", "styles", "meta", "manifest", "body")})
+THEOREM_OF.update({("Document", "get_style"): "C15_style_lookup_pure (Styles.doc_get_style)"})
+THEOREM_OF.update({("ParagraphBase", "inner_text"): "C15_read_pure / C15_reads_in_any_order (WS.readable)"})
+
+
+def theorem_for(cname, label):
+    m = re.match(r"^\.?([A-Za-z_]\w*)", label)
+    name = m.group(1) if m else ""
+    return THEOREM_OF.get((cname, name))
+
+
 def diff_parts(a, b):
     return sorted(p for p in set(a) | set(b) if a.get(p) != b.get(p))
 
@@ -786,7 +813,7 @@ def run_document(src, tier, seed, only=None):
     """worker: all readers of one document.  -> dict(failures=[...], stats, coq cases)"""
     odfdo = common.use_repo()
     rng = random.Random("%s-%s" % (seed, src["id"]))
-    res = dict(id=src["id"], failures=[], budget_exhausted=False, entries_done=0, calls=0, distinct=set(), timeouts=0, exceptions=0, entries=0, skipped=set(), hist={}, cases=[], reloads=0)
+    res = dict(id=src["id"], calls_by_cover={}, failures=[], budget_exhausted=False, entries_done=0, calls=0, distinct=set(), timeouts=0, exceptions=0, entries=0, skipped=set(), hist={}, cases=[], reloads=0)
     try:
         doc, origin = open_source(odfdo, src)
     except Exception as e:
@@ -824,6 +851,8 @@ def run_document(src, tier, seed, only=None):
         if a1[0] != "ok":
             return
         res["distinct"].add((cname, label))
+        th = theorem_for(cname, label)
+        res["calls_by_cover"]["theorem" if th else "testing"] = res["calls_by_cover"].get("theorem" if th else "testing", 0) + 1
         if check_twice:
             a2 = call_entry(doc, obj, fn)
             res["calls"] += 1
@@ -833,13 +862,16 @@ def run_document(src, tier, seed, only=None):
                                             detail="second call changed parts: %s" % ch, case=case))
                 doc, origin = open_source(odfdo, src); base = Base(doc, origin); res["reloads"] += 1
                 return
+            if a2[0] == "timeout":      # a loaded machine: not an answer, not judged
+                res["timeouts"] += 1
+                return
             if a2 != a1:
                 res["failures"].append(dict(kind="nondeterministic", key="twice/%s.%s" % (cname, label.lstrip(".")),
                                             detail="first call %s, second call %s" % (a1, a2), case=case))
                 return
             answers[idx] = a1
         else:
-            if idx in answers and answers[idx] != a1:
+            if idx in answers and a1[0] == "ok" and answers[idx] != a1:
                 res["failures"].append(dict(kind="order-dependent", key="order/%s.%s" % (cname, label.lstrip(".")),
                                             detail="answer in the first pass %s, after other reads %s" % (answers[idx], a1), case=case))
 
@@ -959,7 +991,7 @@ def sources(tier, seed):
 
 
 def _empty_result(src, failures):
-    return dict(id=src["id"], failures=failures, budget_exhausted=False, entries_done=0, calls=0, distinct=[], timeouts=0, exceptions=0, entries=0, skipped=[], hist={}, cases=[], reloads=0)
+    return dict(id=src["id"], calls_by_cover={}, failures=failures, budget_exhausted=False, entries_done=0, calls=0, distinct=[], timeouts=0, exceptions=0, entries=0, skipped=[], hist={}, cases=[], reloads=0)
 
 
 def worker_main(job_file, out_file):
@@ -1060,6 +1092,11 @@ def run(tier, seed, replay=None):
     nfail = 0
     for r in results:
         for f in r["failures"]:
+            if f["kind"] in ("harness", "open-failed", "abstraction"):
+                # the harness itself could not work on this document (environment, import error): not a verdict on the
+                # property -- reported as a correspondence failure (no failing input), never as a violation of C15
+                lost.append("%s: %s" % (f["key"], f["detail"][-300:]))
+                continue
             nfail += 1
             report(f["key"], dict(layer="snapshot-diff (testing): " + f["kind"], key=f["key"], detail=f["detail"],
                                   case=f.get("case") or dict(source=f.get("source")), known_finding_key=None))
@@ -1083,6 +1120,18 @@ def run(tier, seed, replay=None):
         for k, v in r["hist"].items():
             hist[k] = hist.get(k, 0) + v
     calls = sum(r["calls"] for r in results)
+    covered, testing_only = {}, 0
+    for d in distinct:
+        cname, _, label = d.partition(".")
+        th = theorem_for(cname, label)
+        if th:
+            covered[th] = covered.get(th, 0) + 1
+        else:
+            testing_only += 1
+    calls_cover = {}
+    for r in results:
+        for k, v in r.get("calls_by_cover", {}).items():
+            calls_cover[k] = calls_cover.get(k, 0) + v
     samples = []
     for r in results:
         if r["distinct"] and len(samples) < 3:
@@ -1093,11 +1142,18 @@ def run(tier, seed, replay=None):
                       "modelled in Readers.v / WS.v: Element.inner_text on paragraphs with span/a/s/tab/line-break content; Table.optimize_width on run-length rows (trim_rows, minimized_width, force_width) as called by MDTable._md_format"],
         partial=True,
         level_note="TESTING, not proof, for the unmodelled readers: snapshot-diff over documents x introspected entry points; only the paragraph reads of WS.v and the table exporters' effect on the live table are theorems (C15.v)",
-        proved=["C15_read_pure / C15_deterministic / C15_reads_in_any_order on the paragraph read machine (inner_text, consumer, length)",
-                "C15_md_fixed_pure, C15_rst_pure (exporters work on a clone); C15_md_refuted for the pinned Markdown export (F20); C15_md_pinned_repeatable_small (exhaustive sweep over 87 161 small tables)"],
-        not_proved=["all other read-only entry points of Document, Body, Element subclasses, Table, Row, Cell, Meta, Styles/Content/Manifest parts and the export mixins: exercised, not proved",
-                    "the table getters of C01/C08 with their caches (another builder's libraries) are exercised here as black boxes"],
+        proved=["paragraph reads (WS.v): C15_read_pure, C15_deterministic, C15_reads_in_any_order",
+                "table reads and getters through the wrapper caches (TableB.v, the C02/C08 read alphabet): C15_table_reads_pure, C15_table_reads_in_any_order -- Coh kept, XML runs unchanged, answer repeats",
+                "exporters that are functions of a table read (to_csv, str, plain text): C15_table_export_pure; Markdown / RST exporters' effect on the live table: C15_md_fixed_pure, C15_rst_pure, C15_md_refuted (F20, pinned), C15_md_pinned_repeatable_small",
+                "tree searches and count-only replace (Tree.v, re abstract): C15_tree_reads_pure; replace with a replacement is a write: C15_tree_replace_is_a_write",
+                "Document.get_part of XML parts (Package.v, repaired code): C15_package_reads_pure -- bytes and trees of every part unchanged, WFd kept, answer repeats",
+                "Document.get_style (Styles.v): C15_style_lookup_pure; heading listing / TOC entries (Toc.v): C15_heading_listing_pure",
+                "all of them side by side, any history of valid reads in any order: C15_modelled_reads_pure (ReadFam.family_run over the product family)"],
+        not_proved=["every other read-only entry point (see entry_points_testing_only): element finders get_*, properties of the ~90 element classes, Meta export, show_styles, to_markdown of non-table content, get_formatted_text of non-table content, serialize: exercised by the snapshot-diff harness, not proved",
+                    "that the Python entry points tagged in entry_points_by_theorem ARE the Gallina reads is the business of the owning properties' correspondences (C02/C08, C16, C03, C13); here only the paragraph reads and the table exporters are tied by Coq-evaluated cases"],
         evaluations=calls + len(cases), distinct_nontrivial=len(distinct),
+        entry_points_covered_by_a_theorem=sum(covered.values()), entry_points_testing_only=testing_only,
+        entry_points_by_theorem=dict(sorted(covered.items())), first_pass_calls_by_cover=calls_cover,
         rule="documents: 4 templates, every sample (minus %s: ~10^6 declared rows), %d generated text documents and %d generated sheets with trailing empty / repeated rows and cells; "
              "objects per document: the document, body, meta, styles/content/manifest/settings parts, the first tables (first and last row, first cell), the first element(s) of every tag; "
              "plus %d raw-XML text documents and %d raw-XML sheets NOT in odfdo's canonical shape (double spaces / tabs / newlines in text nodes, space before a span, blank spans, tight and padded ragged tables with explicit trailing empty cells); "
